@@ -792,6 +792,18 @@ fn parse_expr(
                             })
                             .to_err_vec()?;
 
+                        // the methods of a class are entered in the class's scope for their types, but
+                        // at run time a method exists only as a member of an object
+                        if let Some(TypeLayout::Function(function_type)) = ident.ty().ok().map(|ty| ty.disregard_distractors(false)) {
+                            if function_type.is_associated_fn() {
+                                return Err(vec![new_err(
+                                    primary.as_span(),
+                                    &file_name,
+                                    format!("`{raw_string}` is a method: call it on an object, like `self.{raw_string}(..)`"),
+                                )]);
+                            }
+                        }
+
                         let cloned = if is_callback {
                             ident.clone().wrap_in_callback().to_err_vec()?
                         } else {
